@@ -210,7 +210,7 @@ void h_c14(void)
     __CPROVER_assert(excess1 >= excess0, "C14.step.safety excess' >= excess: no reference is dropped without its count (freed => no reference inside or outside the footprint)");
 #ifndef VERIF_RC_GE_ONLY
     __CPROVER_assert(t.type == TRAP_ERROR || !typed || excess1 == excess0, "C14.step.noleak excess' == excess on the non-error paths");
-#else
+#elif !defined(VERIF_RC_NOLEAKCOVER)
     VERIF_COVER(t.type != TRAP_ERROR && typed && alive && excess1 > excess0);      /* the leak is real */
 #endif
 #ifdef VERIF_RC_UNTYPED_LEAK
@@ -221,7 +221,11 @@ void h_c14(void)
 #ifndef VERIF_RC_COVERS
 #define VERIF_RC_COVERS 0
 #endif
+#ifdef VERIF_RC_UNDERFLOW
+    VERIF_COVER(ss1 <= 8);                                                   /* the step returned (with missing operands many handlers can only fail) */
+#else
     VERIF_COVER(t.type != TRAP_ERROR && t.type != TRAP_NONE);                /* the step ran to the HALT after it / to its trap */
+#endif
 #if VERIF_RC_COVERS & 1
     VERIF_COVER(t.type != TRAP_ERROR && alive && rcnt1 != rcnt0);            /* the count of the object changes */
 #endif
